@@ -164,7 +164,7 @@ func TestCheck(t *testing.T) {
 	}()
 	callbacks.AppendGlobalHandlers(newHandler("GLOBAL", nil, readAll))
 	ctx := context.Background()
-	n := int64(cfg.Pick(120, 3000))
+	n := int64(cfg.Pick(480, 3000))
 	rep.Cases(n, func(idx int64, rng *mon.Rand) {
 		if idx%6 == 5 {
 			componentCase(ctx, rep, rng)
